@@ -4,7 +4,8 @@ import re
 import glob
 from .lexer import lex, join, GHOST_OPEN, GHOST_CLOSE
 from .items import parse_expansion, match_close
-from .overlay import parse_overlay_file, subst, split_ghost, transplant, drop_trailing_commas, DIGITS
+from .overlay import parse_overlay_file, subst, split_ghost, transplant, drop_trailing_commas, DIGITS, split_pair
+from .props import PAIR_UNITS
 from . import rewrites as R
 
 
@@ -109,7 +110,7 @@ class Overlay:
 
 class Item:
     """one generated item"""
-    __slots__ = ('entry', 'key', 'kind', 'container', 'impl_header', 'modpath', 'full', 'stub', 'ratio', 'identical', 'log', 'name', 'ghost_counts', 'code_tokens', 'canary_full', 'n_canaries', 'header_tokens', 'variant', 'assumed', 'out_tokens', 'body_index', 'is_mp')
+    __slots__ = ('entry', 'key', 'kind', 'container', 'impl_header', 'modpath', 'full', 'stub', 'ratio', 'identical', 'log', 'name', 'ghost_counts', 'code_tokens', 'canary_full', 'n_canaries', 'header_tokens', 'variant', 'assumed', 'out_tokens', 'body_index', 'is_mp', 'impl_ghost')
 
 
 def _proof_fn_stub(text):
@@ -198,7 +199,8 @@ class Generator:
     def __init__(self, expansion, overlay, digit, mode):
         self.x = expansion
         self.ov = overlay
-        self.digit = digit
+        # digit 'AxB' = pair instantiation: $D.. from A, $D2.. from B; units in PAIR_UNITS exist only then
+        self.digit, self.digit2 = split_pair(digit)
         self.mode = mode
         self.items = None
         self.problems = []
@@ -209,6 +211,14 @@ class Generator:
             return False
         if 'digits' in o and self.digit not in o['digits'].split(','):
             return False
+        if (e.unit in PAIR_UNITS or 'pairs' in o) and self.digit2 is None:
+            return False
+        if 'pairs' in o:
+            # pairs=wide2narrow (digit2 wider than digit) | narrow2wide | explicit list u64xu32,...
+            a, b = int(DIGITS[self.digit]['DB']), int(DIGITS[self.digit2]['DB'])
+            kind = 'wide2narrow' if b > a else 'narrow2wide' if b < a else 'same'
+            if kind not in o['pairs'].split(',') and f'{self.digit}x{self.digit2}' not in o['pairs'].split(','):
+                return False
         return True
 
     def build_items(self):
@@ -219,13 +229,13 @@ class Generator:
             it = Item()
             it.entry = e
             it.kind = e.kind
-            it.key = subst(e.key, self.digit)
+            it.key = subst(e.key, self.digit, self.digit2)
             it.log = {}
             it.ratio = 1.0
             it.identical = True
             it.ghost_counts = {}
             it.code_tokens = 0
-            text = subst(e.text, self.digit)
+            text = subst(e.text, self.digit, self.digit2)
             it.n_canaries = 0
             it.canary_full = None
             it.header_tokens = None
@@ -233,12 +243,13 @@ class Generator:
             it.out_tokens = None
             it.body_index = None
             it.is_mp = False
+            it.impl_ghost = None
             it.assumed = 'assumed' in e.opts
             if e.kind in ('raw', 'spec'):
                 it.full = text
                 it.stub = text
                 it.name = e.key
-                it.modpath = tuple(subst(e.opts['module'], self.digit).split('::')) if 'module' in e.opts else ()
+                it.modpath = tuple(subst(e.opts['module'], self.digit, self.digit2).split('::')) if 'module' in e.opts else ()
                 it.impl_header = None
             elif e.kind == 'proof':
                 it.full = text
@@ -341,6 +352,14 @@ class Generator:
         it.modpath = modpath
         it.name = it.key
         it.code_tokens = len(C)
+        if cmap[0] > 0 and it.kind == 'fn' and impl is not None:
+            # a ghost region in front of the first real token of a method = ghost members of the
+            # enclosing impl block (e.g. `open spec fn cast_req/cast_post` of a trait impl): they are
+            # emitted inside the `impl HEADER { .. }` block before the fn, for the full item and its stub alike
+            k0 = cmap[0]
+            it.impl_ghost = join(out[:k0])
+            out = out[k0:]
+            cmap = [c - k0 for c in cmap]
         if it.kind == 'struct':
             it.full = join(out)
             it.stub = it.full
@@ -492,6 +511,7 @@ class Generator:
         m.variant = None
         m.assumed = it.assumed
         m.is_mp = True
+        m.impl_ghost = None
         m.full = join(h2 + b2)
         m.canary_full = m.full
         m.n_canaries = 0
@@ -565,6 +585,8 @@ class Generator:
                         if ' for ' in it.impl_header and not it.is_mp:
                             for ty in self.x.impl_types.get(it.impl_header, []):
                                 emit(ty)
+                        if it.impl_ghost:
+                            emit(it.impl_ghost)
                         emit(body, it if own else None)
                         emit('}')
                     else:
